@@ -279,7 +279,29 @@ def waive(ctx, counters, why):
     """Waive the requirement counters (exact names given to ctx.require) and note the reason."""
     for c in counters:
         ctx.count('anchor_missing.' + c)
+    if getattr(ctx, 'shard', 0):
+        return                      # every shard counts, the first one writes the note
     ctx.note('%s; optional instrumentation skipped, requirement(s) %s waived' % (why, ', '.join(counters) or '-'))
+
+
+def waive_unjudged(ctx, requirement, judged, unrecognised, what):
+    """finish(): a contract on a private function that never saw a call of the pinned form while calls of another
+    form went through it un-judged (changed signature) cannot meet its evaluation requirement: waive it."""
+    if not judged and unrecognised:
+        waive(ctx, [requirement], '%s is called in another form than on the pinned tree (%d calls passed through '
+              'un-judged, changed signature)' % (what, unrecognised))
+
+
+def waive_dead(ctx, label, requirements, public_counter):
+    """finish(), after Reach.export: the private function with reach counter 'reach.<label>' is still defined in
+    this tree but was never entered by this shard although the public mechanism counted in *public_counter* was
+    exercised - it is dead code here (kept as an alias, bypassed): the requirements hanging on it are waived."""
+    c = ctx.counters
+    if c.get('reach.' + label, 0) == 0 and c.get(public_counter, 0) > 0 \
+            and not c.get('anchor_missing.reach.' + label, 0):
+        waive(ctx, ['reach.' + label] + list(requirements),
+              'private function %s is defined but was never entered while %s = %d (no longer on the path in this '
+              'source tree)' % (label, public_counter, c.get(public_counter, 0)))
 
 
 def private(ctx, owner, name, waived=()):
